@@ -116,3 +116,47 @@ Proof.
   destruct (release_then_acquire b' s1 s2 i j Hrb Ho1 Hj Hij) as [b1 [b2 [b3 ->]]].
   exists b1, b2, (b3 ++ tail). rewrite <- !app_assoc. cbn. rewrite <- app_assoc. reflexivity.
 Qed.
+
+(* ------------------------------------------------------------------ object knowledge instead of the first-touch proviso
+   A thread cannot touch an object whose address it has not obtained.  Block addresses are stored only in lock-protected pointer
+   members (tree / list links, pool cursor: `block_pointer_fields`, checked against the regenerated skeleton), so another thread
+   LEARNS the address of a fresh object by a read of a protected cell - which the lock discipline forces to happen under the
+   lock - and that read cannot precede the creation.  Hence the first-touch-under-the-lock proviso of init_once_published follows
+   from the discipline plus "j read o's address from a protected pointer cell before using it". *)
+Theorem init_once_published_by_knowledge : forall prot m tr s a i o f v b j v' c,
+  run (init m) tr = Some s -> disciplined prot tr ->
+  tr = a ++ (i, EWr o f v) :: b ++ (j, ERd o f v') :: c -> i <> j ->
+  holds false (proj i a) = true ->                                              (* constructor runs under the lock (checker: Ini rule) *)
+  (forall k o' f', In (k, ERd o' f' (Z.of_nat o)) a -> prot f' = true -> k = i) ->   (* fresh: nobody else has seen o's address before *)
+  (exists pre o' f' post, a ++ (i, EWr o f v) :: b = pre ++ (j, ERd o' f' (Z.of_nat o)) :: post /\ prot f' = true) ->
+                                                                                (* j learnt o's address from a protected pointer cell *)
+  exists b1 b2 b3, b = b1 ++ (i, ERel) :: b2 ++ (j, EAcq) :: b3.
+Proof.
+  intros prot m tr s a i o f v b j v' c Hr Hd Htr Hij Hi Hfresh [pre [o' [f' [post [Hsplit Hp]]]]].
+  (* the learning read lies in b *)
+  assert (Hb : exists b' b'', b = b' ++ (j, ERd o' f' (Z.of_nat o)) :: b'' /\ pre = a ++ (i, EWr o f v) :: b').
+  { clear - Hsplit Hfresh Hp Hij. revert pre Hsplit. induction a as [|x a IH]; intros pre Hsplit.
+    - cbn [app] in Hsplit. destruct pre as [|y pre]; cbn [app] in Hsplit.
+      + inversion Hsplit.
+      + inversion Hsplit; subst. exists pre, post. auto.
+    - destruct pre as [|y pre]; cbn [app] in Hsplit.
+      + inversion Hsplit; subst. exfalso. apply Hij. symmetry. apply (Hfresh j o' f'); [left; reflexivity | assumption].
+      + inversion Hsplit; subst. destruct (IH (fun k o0 f0 H => Hfresh k o0 f0 (or_intror H)) pre H1) as [b' [b'' [E1 E2]]].
+        exists b', b''. split; [assumption|]. cbn [app]. rewrite E2. reflexivity. }
+  destruct Hb as [b' [b'' [-> ->]]].
+  (* j holds the lock at the learning read, i at the initialisation *)
+  assert (Htr2 : tr = (a ++ (i, EWr o f v) :: b') ++ (j, ERd o' f' (Z.of_nat o)) :: (b'' ++ (j, ERd o f v') :: c)).
+  { rewrite Htr. repeat (rewrite <- app_assoc; cbn [app]). reflexivity. }
+  assert (Hd2 : disciplined prot ((a ++ (i, EWr o f v) :: b') ++ (j, ERd o' f' (Z.of_nat o)) :: (b'' ++ (j, ERd o f v') :: c)))
+    by (rewrite <- Htr2; exact Hd).
+  pose proof (access_holds prot _ j _ _ Hd2 Hp) as Hj.
+  rewrite Htr2 in Hr. apply run_app_some in Hr. destruct Hr as [s2 [Hr2 _]].
+  apply (own_inv prot m _ s2 Hr2 (disciplined_prefix _ _ _ Hd2)) in Hj.
+  pose proof Hr2 as Hr2'. apply run_app_some in Hr2'. destruct Hr2' as [sa [Hra Hrb]].
+  apply (own_inv_run m a sa Hra) in Hi.
+  cbn [run] in Hrb. destruct (step sa (i, EWr o f v)) as [s1|] eqn:Hs; [|discriminate].
+  assert (Ho1 : st_owner s1 = Some i).
+  { rewrite (step_access_owner _ _ _ _ Hs); [assumption | exact I]. }
+  destruct (release_then_acquire b' s1 s2 i j Hrb Ho1 Hj Hij) as [b1 [b2 [b3 ->]]].
+  exists b1, b2, (b3 ++ (j, ERd o' f' (Z.of_nat o)) :: b''). repeat (rewrite <- app_assoc; cbn [app]). reflexivity.
+Qed.
